@@ -27,7 +27,7 @@ def main():
     a = ap.parse_args()
     dirs = sorted(glob.glob(os.path.join(ROOT, 'seeded', '*')))
     if a.only:
-        dirs = [d for d in dirs if os.path.basename(d).startswith(a.only)]
+        dirs = [d for d in dirs if any(os.path.basename(d).startswith(p_) for p_ in a.only.split(','))]
     repo = '/repo'
     env = dict(os.environ)
     if a.scratch:
